@@ -108,8 +108,8 @@ def main():
            "// Seeded-random derived account sets (types only; shapes and argument types come from Probe / DArg at run time).",
            ""] + defs + ["",
            "macro_rules! with_generated_sets {",
-           "    ([$($c:tt)*] extra $($t:ident),* $(,)?) => {",
-           "        registry! { [$($c)*] [" + ", ".join(entries) + "] extra $($t),* }",
+           "    ($($rest:tt)*) => {",
+           "        registry! { gen [" + ", ".join(entries) + "] $($rest)* }",
            "    };",
            "}", ""]
     text = "\n".join(out)
